@@ -79,6 +79,20 @@ def z3sort(s):
     raise Unsupported(f"no scalar z3 sort for {show(s)}")
 
 
+def initial_value(prefix, s):
+    """entry value of a ghost / global: a constant with a fixed name, so that every path sees the same one"""
+    k = s[0]
+    if k in ("opt",):
+        return V(s, (z3.Const(prefix + "#n", z3.BoolSort()), initial_value(prefix + "#v", s[1]).t))
+    if k == "ids":
+        return V(s, (z3.Const(prefix + "#n", z3.BoolSort()), z3.Const(prefix + "#v", z3.IntSort())))
+    if k == "map":
+        return V(s, z3.Const(prefix, z3.ArraySort(z3sort(s[1]), z3sort(s[2]))))
+    if k == "none":
+        return VNONE
+    return V(s, z3.Const(prefix, z3sort(s)))
+
+
 def fresh_value(prefix, s):
     k = s[0]
     if k in ("opt",):
@@ -89,6 +103,8 @@ def fresh_value(prefix, s):
         return V(s, tuple(fresh_value(f"{prefix}#{i}", x) for i, x in enumerate(s[1])))
     if k == "none":
         return VNONE
+    if k == "map":
+        return V(s, fresh(prefix, z3.ArraySort(z3sort(s[1]), z3sort(s[2]))))
     return V(s, fresh(prefix, z3sort(s)))
 
 
@@ -111,6 +127,8 @@ def arr_sort_for(name):
     """z3 sort of the array called `name` (decided by name so that havoc can recreate it)"""
     if name in ("list.len", "obj.tag", "obj.owner"):
         return z3.ArraySort(z3.IntSort(), z3.IntSort())
+    if name == "list.nan":
+        return z3.ArraySort(z3.IntSort(), z3.BoolSort())
     if name == "list.I":
         return z3.ArraySort(z3.IntSort(), z3.ArraySort(z3.IntSort(), z3.IntSort()))
     if name == "list.R":
@@ -158,6 +176,7 @@ class State:
         self.loop_entry = None
         self.labels = {}
         self.infeasible = False
+        self.wlog = []       # heap / ghost locations written on this path (vocabulary of `modifies`)
 
     def fork(self):
         s = State()
@@ -169,6 +188,7 @@ class State:
         s.old = self.old
         s.loop_entry = self.loop_entry
         s.labels = dict(self.labels)
+        s.wlog = list(self.wlog)
         return s
 
     def assume(self, b):
@@ -286,6 +306,9 @@ class Engine:
                 st.assume(ln >= 0)
         elif s[0] == "opq":
             st.assume(v.t >= (0 if s[2] else 1))
+        elif s[0] == "senum":
+            if not z3.is_int_value(v.t):
+                st.assume(z3.And(v.t >= 0, v.t < len(s[2])))
         return v
 
     def field_arrays(self, cname, fname):
@@ -314,6 +337,9 @@ class Engine:
         fs = R.class_fields(cname)[fname]
         name = f"{owner}.{fname}"
         val = self.coerce(val, fs)
+        if fs[0] == "senum" and not z3.is_int_value(z3.simplify(val.t)):
+            self.oblige(st, z3.And(val.t >= 0, val.t < len(fs[2])), "sort-inv", f"{name}", node,
+                        text=f"value stored in {name} is one of {fs[2]}")
         self.note_write(st, name, obj_t, node)
         a = self.arr(st, name)
         if fs[0] in ("opt", "ids"):
@@ -325,6 +351,7 @@ class Engine:
 
     def note_write(self, st, name, obj_t, node):
         self.writes.add(name)
+        st.wlog.append(name)
         c = self.contract
         if c is not None and c.writes_owner == "GEN":
             own = z3.Select(self.arr(st, "obj.owner"), obj_t)
@@ -380,6 +407,17 @@ class Engine:
                 return V(s, z3.IntVal(0))
             if v.s[0] == k:
                 return V(s, v.t)
+        if k == "senum":
+            if v.s == PY and isinstance(v.t, str):
+                if v.t not in s[2]:
+                    raise Unsupported(f"constant {v.t!r} is not a value of {show(s)}")
+                return V(s, z3.IntVal(s[2].index(v.t)))
+            if v.s == STR:
+                return V(s, self.senum_code(s, v.t))     # -1 when outside the declared values: store_field checks
+            if v.s[0] == "senum" and v.s[2] == s[2]:
+                return V(s, v.t)
+        if k == "str" and v.s[0] == "senum":
+            return V(STR, self.senum_text(v))
         if k == "enum":
             if v.s[0] == "enum":
                 return V(s, v.t)
@@ -460,6 +498,8 @@ class Engine:
             return z3.BoolVal(bool(v.t))
         if s == BOOL:
             return v.t
+        if s[0] == "senum":
+            return v.t != s[2].index("") if "" in s[2] else z3.BoolVal(True)
         if s == INT or s[0] == "enum":
             return v.t != 0
         if s == REAL:
@@ -486,9 +526,19 @@ class Engine:
         """python ==  as a z3 Bool"""
         if a.s == PY and b.s == PY:
             return z3.BoolVal(a.t == b.t)
-        if a.s == PY:
+        if a.s == PY or (b.s[0] == "senum" and a.s[0] != "senum"):
             a, b = b, a
         # b may be python constant
+        if a.s[0] == "senum":
+            if b.s == PY:
+                return a.t == a.s[2].index(b.t) if b.t in a.s[2] else z3.BoolVal(False)
+            if b.s[0] == "senum":
+                if a.s[2] == b.s[2]:
+                    return a.t == b.t
+                return z3.Or([z3.And(a.t == i, b.t == b.s[2].index(x)) for i, x in enumerate(a.s[2]) if x in b.s[2]] or [z3.BoolVal(False)])
+            if b.s == STR:
+                return z3.Or([z3.And(a.t == i, b.t == z3.StringVal(x)) for i, x in enumerate(a.s[2])])
+            return z3.BoolVal(False)
         if a.s[0] == "opt":
             if b.s == NONE or (b.s == PY and b.t is None):
                 return a.t[0]
@@ -749,7 +799,7 @@ class Engine:
 
     def ghost_get(self, st, gname, sort):
         if gname not in st.ghost:
-            v = fresh_value("G0!" + gname, sort)
+            v = initial_value("G0!" + gname, sort)
             st.ghost[gname] = v
             if st.old is not None and gname not in st.old.ghost:
                 st.old.ghost[gname] = v
@@ -791,6 +841,8 @@ class Engine:
             return k(st, V(STR, self.real_text(v.t)))
         if v.s == IDS:
             return k(st, V(STR, z3.If(v.t[0], z3.StringVal(""), self.int_text(v.t[1]))))
+        if v.s[0] == "senum":
+            return k(st, V(STR, self.senum_text(v)))
         if v.s[0] == "ref":
             return self.call_method(st, v, "__str__", [], {}, node, k, ctx)
         if v.s[0] == "opt":
@@ -801,6 +853,22 @@ class Engine:
 
     _int_text = None
     _real_text = None
+
+    @staticmethod
+    def senum_text(v):
+        vals = v.s[2]
+        t = z3.StringVal(vals[-1])
+        for i in range(len(vals) - 2, -1, -1):
+            t = z3.If(v.t == i, z3.StringVal(vals[i]), t)
+        return t
+
+    @staticmethod
+    def senum_code(sort, str_term):
+        """code of a symbolic string in a StrEnum, -1 if it is none of the values"""
+        t = z3.IntVal(-1)
+        for i in range(len(sort[2]) - 1, -1, -1):
+            t = z3.If(str_term == z3.StringVal(sort[2][i]), z3.IntVal(i), t)
+        return t
 
     def int_text(self, t):
         """abstract decimal text of an int: uninterpreted, with axioms added per use"""
@@ -882,9 +950,14 @@ class Engine:
         def go(i, s1, left, acc):
             if i == len(node.ops):
                 return k(s1, V(BOOL, z3.And(acc) if len(acc) > 1 else acc[0]))
+
+            def after_cmp(s3, r, right):
+                if len(node.ops) == 1 and r.s != BOOL:
+                    return k(s3, r)          # element-wise comparison of an array
+                return go(i + 1, s3, right, acc + [r.t if r.s == BOOL else self.truth(s3, r)])
             return self.ev(node.comparators[i], s1,
                            lambda s2, right: self.compare(s2, node.ops[i], left, right, node,
-                                                          lambda s3, r: go(i + 1, s3, right, acc + [r.t if r.s == BOOL else self.truth(s3, r)]), ctx), ctx)
+                                                          lambda s3, r: after_cmp(s3, r, right), ctx), ctx)
         return self.ev(node.left, st, lambda s1, left: go(0, s1, left, []), ctx)
 
     def ev_IfExp(self, node, st, k, ctx):
@@ -1145,7 +1218,7 @@ class Engine:
                 st.ghost[nm] = fresh_value("hv!" + nm, sort) if sort[0] != "map" else V(sort, fresh("hv!" + nm, z3sort_of_ghost(sort)))
                 continue
             if nm == "list":
-                for n2 in ("list.len", "list.I", "list.R", "list.S"):
+                for n2 in ("list.len", "list.I", "list.R", "list.S", "list.nan"):
                     self.arr(st, n2)
                     st.heap.arrs[n2] = fresh("hv!" + n2, arr_sort_for(n2))
                 continue
@@ -1213,8 +1286,7 @@ class Engine:
         res = None
         if c.returns is not None and c.returns != NONE:
             res = fresh_value("ret!" + key.split(".")[-1], c.returns)
-            if c.returns[0] in ("ref", "list", "opq"):
-                self.typing_facts(st, res)
+            self.typing_facts(st, res)
         post = st.fork()
         post.env = dict(env)
         if res is not None:
@@ -1233,9 +1305,10 @@ class Engine:
         before the call (the callee may allocate and initialise fresh objects)."""
         alloc0 = st.heap.alloc
         modset = set()
+        st.wlog.extend(mods)
         for m in mods:
             if m == "list":
-                modset |= {"list.len", "list.I", "list.R", "list.S"}
+                modset |= {"list.len", "list.I", "list.R", "list.S", "list.nan"}
             elif m.startswith("ghost.") or m.startswith("global."):
                 continue
             else:
@@ -1269,6 +1342,16 @@ class Engine:
         if m is None:
             raise Unsupported(f"statement {type(node).__name__} at line {node.lineno}")
 
+        before = self.contract.ghost_before if self.contract else {}
+        if before:
+            try:
+                src0 = ast.unparse(node).split("\n")[0].strip()
+            except Exception:
+                src0 = ""
+            if src0 in before:
+                self.run_ghost(st, before[src0])
+                self.anchors_hit.add(src0)
+
         def after(s1):
             anchors = self.contract.ghost_at if self.contract else {}
             if anchors:
@@ -1294,12 +1377,14 @@ class Engine:
                 name = tgt.id
                 sort = R.GHOSTS[name]
                 self.ghost_get(st, "ghost." + name, sort)
+                st.wlog.append("ghost." + name)
                 st.ghost["ghost." + name] = self.coerce(val, sort) if sort[0] != "map" else val
             elif isinstance(tgt, ast.Subscript) and isinstance(tgt.value, ast.Name):
                 name = tgt.value.id
                 sort = R.GHOSTS[name]
                 cur = self.ghost_get(st, "ghost." + name, sort)
                 idx = se.eval(tgt.slice)
+                st.wlog.append("ghost." + name)
                 st.ghost["ghost." + name] = V(sort, z3.Store(cur.t, lift(idx).t, self.coerce(val, sort[2]).t))
             else:
                 raise Unsupported("ghost assignment target")
@@ -1382,6 +1467,7 @@ class Engine:
                 self.ghost_get(st, gname, sort)
                 st.ghost[gname] = self.coerce(v, sort)
                 self.writes.add(gname)
+                st.wlog.append(gname)
                 return k(st)
             st.env[tgt.id] = v
             return k(st)
